@@ -268,8 +268,10 @@ func (k Keeper) IterateClients(
 
 	defer iterator.Close()
 	for ; iterator.Valid(); iterator.Next() {
-		keySplit := strings.Split(string(iterator.Key()), "/")
-		if keySplit[len(keySplit)-1] != host.KeyClientState {
+		// key is clients/{chainName}/clientState; other keys of the client store may
+		// hold binary data (heights, hashes), so the key is not split beyond the name
+		keySplit := strings.SplitN(string(iterator.Key()), "/", 3)
+		if len(keySplit) != 3 || keySplit[2] != host.KeyClientState {
 			continue
 		}
 		clientState := k.MustUnmarshalClientState(iterator.Value())
